@@ -80,6 +80,19 @@ Theorem C05_sh_without_exit_code : forall b, b = BSh CSignaled \/ b = BSh CNotSt
 Proof. exact sh_without_exit_code. Qed.
 Print Assumptions C05_sh_without_exit_code.
 
+(* a -clean that cannot remove a cache entry: status 1, nothing runs, and (since 158c196) the error is on stderr *)
+Theorem C05_clean_failure_reported : forall fixed sc, ~ shows_help (sc_args sc) -> ~ misuse (sc_args sc) ->
+  selected (sc_args sc) = CmdClean -> sc_clean_err sc = true ->
+  mage_status fixed sc = 1 /\ f_msg (mage_run fixed sc) = true /\ f_child (mage_run fixed sc) = false.
+Proof. exact clean_failure_reported. Qed.
+Print Assumptions C05_clean_failure_reported.
+
+(* before that repair (ParseAndRun_gen false): status 1 with nothing on stderr *)
+Theorem C05_clean_failure_before_repair_refuted : exists a bd ch,
+  f_code (ParseAndRun_gen false a false true bd ch) = 1 /\ f_msg (ParseAndRun_gen false a false true bd ch) = false.
+Proof. exact clean_failure_silent_before_repair. Qed.
+Print Assumptions C05_clean_failure_before_repair_refuted.
+
 (* what Parse accepts, as a readable description: usage / misuse / the selected command *)
 Theorem C05_parse : forall a,
   (snd (Parse a) = PErrHelp <-> shows_help a) /\
